@@ -24,7 +24,7 @@ getuid/geteuid of every registered object after the step) and decides whether pr
            new owner; what it creates is judged as an op of the new owner
   vo       a blueprint that master::valid_object refused is not created
   fp       geteuid(function) after a via / bind op is the euid of the function's (new) owner
-  known    every object in a snapshot was there before or was announced in this step; announced objects appear in
+  known    every object in a snapshot was there before or was announced in this step; no id occurs twice in a snapshot; announced objects appear in
            the snapshot as announced; every object has a uid; the driver did not crash
 
 It knows nothing about the model's world (object table, half-made objects, clone counter).
@@ -134,7 +134,7 @@ def knownClause (P : List Obj) (r : StepRec) : Bool :=
   (match r.snap with
    | none => false
    | some S =>
-     S.all (fun e => e.uid.isSome && ((getO P e.oid).isSome || isMade r e.oid)) &&
+     S.all (fun e => e.uid.isSome && ((getO P e.oid).isSome || isMade r e.oid) && decide (getO S e.oid = some e)) &&
      r.creations.all (fun c => match c.made with
        | some m =>
          (match getO S m.oid with
